@@ -46,7 +46,7 @@ INJECTS = [Rec(kind="mpc", topic="T1", **{"from": 12}), Rec(kind="mpc", topic="T
            Rec(kind="sync", topic="T12", **{"from": 12}), Rec(kind="mpc", topic="DKG", **{"from": 12}), Rec(kind="sync", topic="DKG2", **{"from": 13})]
 
 
-def write_mc(wd, name, consts, trace=None, invariants=()):
+def write_mc(wd, name, consts, trace=None, invariants=(), dump="edges"):
     mod = ("T_" if trace else "MC_") + name
     lines = ["---- MODULE %s ----" % mod, "EXTENDS %s" % ("OrchTrace" if trace else "Orch, Json")]
     for k in ("Calls", "Kinds", "Plans", "Injects", "Participants"):
@@ -56,6 +56,8 @@ def write_mc(wd, name, consts, trace=None, invariants=()):
     else:
         lines.append('PathDump == PrintT(<<"PATH", ToJson([path |-> hist\', cs |-> [c \\in Calls |-> [st |-> calls\'[c].st, late |-> calls\'[c].plan.late, '
                      'z |-> calls\'[c].z, kind |-> calls\'[c].kind, topic |-> calls\'[c].topic]]])>>)')
+    if not trace:
+        lines.append("PathDumpT == Terminal' => PathDump")
     lines.append("====")
     with open(os.path.join(wd, mod + ".tla"), "w") as f:
         f.write("\n".join(lines) + "\n")
@@ -63,7 +65,11 @@ def write_mc(wd, name, consts, trace=None, invariants=()):
     if trace:
         c += ["  TraceFile <- c_TraceFile", "INIT TInit", "NEXT TNext"]
     else:
-        c += ["INIT Init", "NEXT Next", "VIEW view", "ACTION_CONSTRAINT PathDump"]
+        c += ["INIT Init", "NEXT Next", "VIEW view"]
+        if dump == "edges":
+            c.append("ACTION_CONSTRAINT PathDump")
+        elif dump == "terminal":
+            c.append("ACTION_CONSTRAINT PathDumpT")
         if invariants:
             c.append("INVARIANTS " + " ".join(invariants))
     with open(os.path.join(wd, mod + ".cfg"), "w") as f:
@@ -91,6 +97,8 @@ def norm_ops(path):
 def quiesce_and_probe(ops, cs, next_id):
     """cs: per call [st, late, z, kind, topic] in the model state at the end of the explored history"""
     topics = set()
+    if isinstance(cs, list):          # a function with domain 1..n is printed as a JSON array
+        cs = {str(i + 1): v for i, v in enumerate(cs)}
     for c in sorted(cs, key=int):
         k = cs[c]
         if k["kind"]:
@@ -192,24 +200,36 @@ def run(pid):
         log("orch C06: %d (map, participants) cases enumerated by TLC, %d sessions" % (ncases, len(scs)))
     # call histories
     consts = dict(Calls=[1, 2, 3], Kinds=KINDS, Plans=PLANS, Injects=INJECTS, Participants=PARTICIPANTS,
-                  MaxOps=(4 if tr == "quick" else 6) if pid != "C06" else 3)
+                  MaxOps=(4 if tr == "quick" else 5) if pid != "C06" else 3)
     if pid == "C06":
         consts["Plans"] = [P(), P(prep="dup")]
         consts["Injects"] = INJECTS[:2]
-    mod = write_mc(wd, "hist", consts, invariants=["NoResidue", "EntriesOwned", "OneSessionPerTopic"])
-    r = vlib.run_tlc(mod, mod + ".cfg", ["Orch.tla"], workdir=wd, timeout=1800, keep_prints=["PATH"], heap="12g")
+    inv = ["NoResidue", "EntriesOwned", "OneSessionPerTopic"]
+    # exhaustive design-level check (no dump), then histories: every edge of a shallower graph + seeded walks of the full one
+    mod = write_mc(wd, "hist", consts, invariants=inv, dump="none")
+    r = vlib.run_tlc(mod, mod + ".cfg", ["Orch.tla"], workdir=wd, timeout=1800, heap="12g")
     if r.violation:
         raise vlib.CheckError("Orch model violates %s at design level\n%s" % (r.violation, "".join(r.error_trace[-2:])[:3000]))
     states += r.distinct
     transitions += r.generated
-    recs = [o for (_, o) in r.prints]
+    recs = []
+    shallow = dict(consts, MaxOps=3 if tr == "quick" or pid == "C06" else 4)
+    mod = write_mc(wd, "edges", shallow, dump="edges")
+    re_ = vlib.run_tlc(mod, mod + ".cfg", ["Orch.tla"], workdir=wd, timeout=1800, keep_prints=["PATH"], heap="12g")
+    recs += [o for (_, o) in re_.prints]
+    n_edges = len(recs)
+    mod = write_mc(wd, "walks", consts, dump="terminal")
+    rs = vlib.run_tlc(mod, mod + ".cfg", ["Orch.tla"], workdir=wd, workers=1, simulate="num=%d" % (1200 if tr == "quick" else 30000), depth=consts["MaxOps"] + 1,
+                      tlc_seed=vlib.seed(), timeout=1500, keep_prints=["PATH"])
+    recs += [o for (_, o) in rs.prints]
     # keep maximal histories only (an edge's history that is a prefix of another one is covered by it)
     keyed = {}
     for o in recs:
         keyed[tuple(json.dumps(e, sort_keys=True) for e in o["path"])] = o
     keys = sorted(keyed)
     maximal = [k for i, k in enumerate(keys) if not (i + 1 < len(keys) and keys[i + 1][:len(k)] == k)]
-    cap = {"quick": 1800, "thorough": 40000}[tr] if pid != "C06" else 300
+    cap = {"quick": 2500, "thorough": 60000}[tr] if pid != "C06" else 300
+    cap = int(os.environ.get("VERIF_ORCH_CAP", cap))
     total_hist = len(maximal)
     if len(maximal) > cap:
         rng.shuffle(maximal)
